@@ -256,7 +256,9 @@ macro_rules! impl_rank_small_sel {
                     + BitLength
                     + NumBits
                     + SelectHinted,
-            > SelectUnchecked for SelectSmall<$NUM_U32S, $COUNTER_WIDTH, C>
+                I: AsRef<[u32]>,
+                O: AsRef<[usize]>,
+            > SelectUnchecked for SelectSmall<$NUM_U32S, $COUNTER_WIDTH, C, I, O>
         {
             unsafe fn select_unchecked(&self, rank: usize) -> usize {
                 let upper_counts = self.small_counters.upper_counts();
@@ -356,13 +358,15 @@ macro_rules! impl_rank_small_sel {
                     + BitLength
                     + NumBits
                     + SelectHinted,
-            > Select for SelectSmall<$NUM_U32S, $COUNTER_WIDTH, C>
+                I: AsRef<[u32]>,
+                O: AsRef<[usize]>,
+            > Select for SelectSmall<$NUM_U32S, $COUNTER_WIDTH, C, I, O>
         {
         }
     };
 }
 
-impl<C: SmallCounters<2, 9> + AsRef<[usize]> + BitLength + NumBits> SelectSmall<2, 9, C> {
+impl<C: SmallCounters<2, 9> + AsRef<[usize]> + BitLength + NumBits, I, O> SelectSmall<2, 9, C, I, O> {
     #[inline(always)]
     unsafe fn complete_select(
         &self,
@@ -402,8 +406,8 @@ impl<C: SmallCounters<2, 9> + AsRef<[usize]> + BitLength + NumBits> SelectSmall<
     }
 }
 
-impl<C: SmallCounters<1, 9> + AsRef<[usize]> + BitLength + NumBits + SelectHinted>
-    SelectSmall<1, 9, C>
+impl<C: SmallCounters<1, 9> + AsRef<[usize]> + BitLength + NumBits + SelectHinted, I, O>
+    SelectSmall<1, 9, C, I, O>
 {
     #[inline(always)]
     unsafe fn complete_select(
@@ -437,8 +441,8 @@ impl<C: SmallCounters<1, 9> + AsRef<[usize]> + BitLength + NumBits + SelectHinte
     }
 }
 
-impl<C: SmallCounters<1, 10> + AsRef<[usize]> + BitLength + NumBits + SelectHinted>
-    SelectSmall<1, 10, C>
+impl<C: SmallCounters<1, 10> + AsRef<[usize]> + BitLength + NumBits + SelectHinted, I, O>
+    SelectSmall<1, 10, C, I, O>
 {
     #[inline(always)]
     unsafe fn complete_select(
@@ -472,8 +476,8 @@ impl<C: SmallCounters<1, 10> + AsRef<[usize]> + BitLength + NumBits + SelectHint
     }
 }
 
-impl<C: SmallCounters<1, 11> + AsRef<[usize]> + BitLength + NumBits + SelectHinted>
-    SelectSmall<1, 11, C>
+impl<C: SmallCounters<1, 11> + AsRef<[usize]> + BitLength + NumBits + SelectHinted, I, O>
+    SelectSmall<1, 11, C, I, O>
 {
     #[inline(always)]
     unsafe fn complete_select(
@@ -507,8 +511,8 @@ impl<C: SmallCounters<1, 11> + AsRef<[usize]> + BitLength + NumBits + SelectHint
     }
 }
 
-impl<C: SmallCounters<3, 13> + AsRef<[usize]> + BitLength + NumBits + SelectHinted>
-    SelectSmall<3, 13, C>
+impl<C: SmallCounters<3, 13> + AsRef<[usize]> + BitLength + NumBits + SelectHinted, I, O>
+    SelectSmall<3, 13, C, I, O>
 {
     unsafe fn complete_select(
         &self,
